@@ -217,8 +217,8 @@ Definition own_w (r : rsnap) : rref := match rs_obj r with ResW w => RW w | ResC
 
 Definition workload_one (d bs be : term) (lo hi : Z) : list form :=
   let c1 := FAnd [FGe bs (TC lo); FLe be (TC hi)] in
-  let c2 := FAnd [FLt bs (TC lo); FGt be (TC lo)] in
-  let c3 := FAnd [FLt bs (TC hi); FGt be (TC hi)] in
+  let c2 := FAnd [FLt bs (TC lo); FGt be (TC lo); FLe be (TC hi)] in
+  let c3 := FAnd [FGe bs (TC lo); FLt bs (TC hi); FGt be (TC hi)] in
   let c4 := FAnd [FLt bs (TC lo); FGt be (TC hi)] in
   [ FGe d (TC 0);
     FImp c1 (FEq d (TSub be bs));
@@ -348,7 +348,7 @@ Definition enc_raw (c : nat) (e : rcexpr) : list form :=
       [guard2 tb ta (prec_rel k lower (S_ ta))]
   | CStartSynced a b => [guard2 a b (FEq (S_ a) (S_ b))]
   | CEndSynced a b => [guard2 a b (FEq (E_ a) (E_ b))]
-  | CDontOverlap a b => [guard2 a b (FXor (FGe (S_ b) (E_ a)) (FGe (S_ a) (E_ b)))]
+  | CDontOverlap a b => [guard2 a b (FOr [FGe (S_ b) (E_ a); FGe (S_ a) (E_ b)])]
   | CContiguous ts =>
       nondelay_like c (map S_ ts) (map E_ ts)
         (fun bp ai => FImp (FOr [FAnd [FGe bp (TC 0); FGe ai (TC 0)]]) (FEq ai bp))
@@ -358,9 +358,11 @@ Definition enc_raw (c : nat) (e : rcexpr) : list form :=
                   | Some (lo, hi) => [FGe gs (TC lo); FLe ge (TC hi)]
                   | None => match len with Some l => [FLe ge (TAdd [gs; TC l])] | None => [] end
                   end in
-      let body := flat_map (fun t => [FGe (S_ t) gs; FLe (E_ t) ge]) ts in
+      (* an optional task belongs to the group, and is ordered with its neighbours, only when it is scheduled *)
+      let body := flat_map (fun t => if ti_opt t then [FImp (sched_f t) (FAnd [FGe (S_ t) gs; FLe (E_ t) ge])]
+                                     else [FGe (S_ t) gs; FLe (E_ t) ge]) ts in
       let order := match e with
-                   | COGroup _ _ _ k => map (fun '(x, y) => prec_rel k (E_ x) (S_ y)) (consec_tasks ts)
+                   | COGroup _ _ _ k => map (fun '(x, y) => guard2 x y (prec_rel k (E_ x) (S_ y))) (consec_tasks ts)
                    | _ => [] end in
       [FAnd (head ++ body ++ order)]
   | CForceSched t b => [FIff (sched_f t) (if b then FT else FF)]
